@@ -128,3 +128,17 @@ package kv
 //@   ensures  SpecReadErr(la.Engine, op.Key) == nil && !SpecHasDigest(la.Engine, op.Key) && op.Variant == change.VariantDelete ==> err == nil && out.Leaseholder == cluster.SpecHostKey(la.Cluster)
 //@   ensures  out.Version == op.Version && __eq(out.Change, op.Change)
 //@   modifies nothing
+
+//@ # ---- start-up recovery, serving side: "streams every digest at or above the [requester's]
+//@ # high-water mark": a stored digest is skipped exactly when its version is strictly older, and
+//@ # what is sent carries the digest's version, leaseholder and variant
+//@ ignorepkg github.com/synnaxlabs/freighter
+//@ ignorepkg github.com/synnaxlabs/x/encoding
+//@ ignorepkg bytes
+//@ ignorepkg io
+//@ func (r *recoveryServer) recoverPeer(ctx context.Context, stream RecoveryTransportServerStream) (err error)
+//@   assert_before "continue" dig.Version < req.HighWater
+//@   assert_before "op := Operation{}" dig.Version >= req.HighWater
+//@   assert_before "err = stream.Send(" op.Version == dig.Version && op.Leaseholder == dig.Leaseholder && op.Variant == dig.Variant
+//@   modifies nothing
+//@   loop 0 modifies nothing
